@@ -176,7 +176,8 @@ mitm_tap(void *arg, int dir, const unsigned char *data, size_t len)
 
 typedef struct {
 	int verdict;            /* -1 honest */
-	int pkey_kind;          /* 0 honest, 1 wrong type, 2 other curve, 3 weak RSA (768), 4 other key same type */
+	int pkey_kind;          /* 0 honest, 1 wrong type, 2 other curve, 3 weak RSA (768), 4 other key same type, 5 no key at all (NULL),
+	                           6 the honest RSA key with leading zero bytes in the modulus (must work), 7 RSA modulus of 40 bytes */
 	int usages;             /* -1 honest */
 } vscript;
 
@@ -337,12 +338,31 @@ pre_reset_vscript(void *epv, void *arg)
 	ep->xw->force_verdict = vs->verdict;
 	ep->xw->force_usages = vs->usages;
 	ep->xw->force_pkey = NULL;
+	ep->xw->force_null_pkey = 0;
 	switch (vs->pkey_kind) {
 	case 1:   /* key of the other type */
 		ep->xw->force_pkey = (ep->cfg.suites && tp_suite_find(ep->cfg.suites[0])->kx <= TP_KX_ECDHE_RSA)
 			? &tp_fx.anchors[1].ta.pkey : &tp_fx.anchors[0].ta.pkey;
 		break;
 	case 2: ep->xw->force_pkey = &pk_ec384.ta.pkey; break;       /* EC key on another curve */
+	case 5: ep->xw->force_null_pkey = 1; break;
+	case 6: {
+		/* same key, modulus written with three leading zero bytes */
+		static br_x509_pkey padded; static unsigned char nb[600];
+		padded = pk_srv_rsa.ta.pkey;
+		memset(nb, 0, 3); memcpy(nb + 3, padded.key.rsa.n, padded.key.rsa.nlen);
+		padded.key.rsa.n = nb; padded.key.rsa.nlen += 3;
+		ep->xw->force_pkey = &padded;
+		break;
+	}
+	case 7: {
+		static br_x509_pkey tiny; static unsigned char tn[40];
+		tiny = pk_srv_rsa.ta.pkey;
+		memcpy(tn, tiny.key.rsa.n, 40); tn[0] |= 0x80; tn[39] |= 1;
+		tiny.key.rsa.n = tn; tiny.key.rsa.nlen = 40;
+		ep->xw->force_pkey = &tiny;
+		break;
+	}
 	case 3: ep->xw->force_pkey = &pk_weak.ta.pkey; break;        /* RSA key the server does not own */
 	case 4:   /* another key of the right type */
 		ep->xw->force_pkey = (ep->cfg.suites && tp_suite_find(ep->cfg.suites[0])->kx <= TP_KX_ECDHE_RSA)
@@ -386,6 +406,7 @@ cfg_for(const scenario *sc, tp_cfg *cc, tp_cfg *sv, uint16_t *suite_buf, vf_rng 
 	sv->buflen = BR_SSL_BUFSIZE_INPUT; sv->buflen_out = BR_SSL_BUFSIZE_OUTPUT;
 	cc->client_auth = sc->cauth;
 	sv->client_auth = sc->cauth ? 1 : 0;
+	sv->ta_plain_names = sc->cauth == 2;   /* CertificateRequest names from a br_x500_name array / from the trust anchors */
 	vf_bytes(r, cc->seed, 32); vf_bytes(r, sv->seed, 32);
 	if (sc->mode == 1) {
 		br_ssl_session_cache_lru_init(&lru, lru_store, sizeof lru_store);
@@ -682,6 +703,31 @@ auth_scenarios(long long seed)
 		vs.pkey_kind = 4;
 		run_scenario(&sc, NULL, 0, 0, &o, pre_reset_vscript, &vs, NULL, NULL, NULL, NULL);
 		expect_refused("validator-returns-another-key", &o, 0);
+		/* success verdict but no key at all */
+		vs.pkey_kind = 5;
+		run_scenario(&sc, NULL, 0, 0, &o, pre_reset_vscript, &vs, NULL, NULL, NULL, NULL);
+		expect_refused("validator-accepts-but-returns-no-key", &o, 0);
+		if (kx <= TP_KX_ECDHE_RSA) {
+			/* an RSA modulus of 40 bytes; and the honest key with a zero-padded modulus (control: must complete) */
+			vs.pkey_kind = 7;
+			run_scenario(&sc, NULL, 0, 0, &o, pre_reset_vscript, &vs, NULL, NULL, NULL, NULL);
+			expect_refused("validator-returns-320-bit-rsa-key", &o, 0);
+			vs.pkey_kind = 6;
+			run_scenario(&sc, NULL, 0, 0, &o, pre_reset_vscript, &vs, NULL, NULL, NULL, NULL);
+			vf_stat("auth_controls", 1);
+			if (!o.c_ready || !o.s_ready || o.c_err || o.s_err) {
+				snprintf(tp_case, sizeof tp_case, "%s auth-case=control-rsa-modulus-with-leading-zero-bytes", scen_desc);
+				TP_VIOL("auth-control-failed", "handshake did not complete when the validator returns the honest RSA key with leading zero bytes in the modulus");
+			}
+		}
+		/* the server's validator accepts the client chain but returns no key */
+		{
+			scenario sc2 = sc;
+			sc2.cauth = 1 + (kx & 1);
+			vs.pkey_kind = 5;
+			run_scenario(&sc2, NULL, 0, 0, &o, NULL, NULL, pre_reset_vscript, &vs, NULL, NULL);
+			expect_refused("server-validator-accepts-client-chain-but-returns-no-key", &o, 1);
+		}
 		if (kx >= TP_KX_ECDHE_ECDSA) {
 			vs.pkey_kind = 2;
 			run_scenario(&sc, NULL, 0, 0, &o, pre_reset_vscript, &vs, NULL, NULL, NULL, NULL);
